@@ -90,7 +90,7 @@ func runTree(rec *recorder, scen string, seed int64, blocks, nq, run int) ([]tra
 	b1 := w.deploy()
 	rng := w.rng
 	n := 2 + rng.Intn(2)
-	if scen == "pingpong" {
+	if scen == "pingpong" || scen == "deep" {
 		n = 2
 	}
 	st.Nodes = n
@@ -107,7 +107,11 @@ func runTree(rec *recorder, scen string, seed int64, blocks, nq, run int) ([]tra
 		}
 	}()
 	if scen == "pingpong" {
-		pingpong(w, stacks, b1, blocks)
+		pingpong(w, stacks, b1, blocks, []int{1, 2, 3, 4, 2, 3, 1, 4}, false)
+	} else if scen == "deep" {
+		// long branches; EVERY block of both branches starts with a transaction that emits an event and moves value, so
+		// old and new branch hold different rows at the equal positions (n, 0, 0) of every height
+		pingpong(w, stacks, b1, 4*blocks, []int{6, 9, 12, 7}, true)
 	} else {
 		// the two blocks minted by deploy
 		for _, b := range append([]*block.Block(nil), w.order...) {
@@ -162,7 +166,7 @@ func runTree(rec *recorder, scen string, seed int64, blocks, nq, run int) ([]tra
 }
 
 // pingpong: branch B forks d below the tip of A and grows one block longer; then A strikes back with two more blocks.
-func pingpong(w *world, stacks []*stack, b1 *block.Block, blocks int) {
+func pingpong(w *world, stacks []*stack, b1 *block.Block, blocks int, depths []int, rich bool) {
 	for _, b := range append([]*block.Block(nil), w.order...) {
 		for _, s := range stacks {
 			s.deliver(b)
@@ -175,6 +179,12 @@ func pingpong(w *world, stacks []*stack, b1 *block.Block, blocks int) {
 			if len(out) == 0 && len(txs) == 0 { // the first block of a branch carries logs
 				continue
 			}
+			if rich {
+				txs = append(w.fatTxs(p.Header().Number(), 1, 1), txs...)
+				if len(txs) > 2 {
+					txs = txs[:2]
+				}
+			}
 			b := w.mint(p, txs)
 			if b == nil {
 				continue
@@ -185,13 +195,17 @@ func pingpong(w *world, stacks []*stack, b1 *block.Block, blocks int) {
 		return out
 	}
 	tip := b1
-	for _, b := range mintOn(b1, 3) {
+	first := 3
+	if rich {
+		first = depths[0] + 1
+	}
+	for _, b := range mintOn(b1, first) {
 		for _, s := range stacks {
 			s.deliver(b)
 		}
 		tip = b
 	}
-	for _, d := range []int{1, 2, 3, 4, 2, 3, 1, 4} {
+	for _, d := range depths {
 		if len(w.order)+d+3 > blocks+8 {
 			break
 		}
